@@ -128,7 +128,11 @@ observation unchanged, at every crash point too.
   * D-MERGE-ACTIVE: nothing is live in any file (the active file is removed while still open).
 At crash points inside Merge only (`mergeCrashSignature`):
   * D-MERGE-ZSET-STALE: two ZAdd records of the same bucket and member are in the data files (the older one
-    is rewritten into a newer file: at a crash before the newer one is rewritten too, replay applies it last). -/
+    is rewritten into a newer file: at a crash before the newer one is rewritten too, replay applies it last);
+  * D-MERGE-ZPOS: a rank-based removal record (ZPopMax / ZPopMin / ZRemRangeByRank) of a bucket lies in a later
+    file than a ZAdd record of that bucket (Merge drops or moves the ZAdd records of the earlier file first: at a
+    crash before the file with the removal record is handled, replay applies the removal to a different
+    sequence of members and removes another one). -/
 def zaddMember (r : Rec) : Option (Bytes × Bytes) :=
   if r.ds == dsZSet && r.flag == flagZAdd then
     match splitSep r.key with
@@ -148,9 +152,17 @@ def mergeSignature (s : State) (now : Nat) : Option String :=
   else if (merge s now []).1.activeUnlinked then some "D-MERGE-ACTIVE"
   else none
 
-/-- the defect that shows at crash points inside Merge only -/
+def isZPositional (r : Rec) : Bool :=
+  r.ds == dsZSet && (r.flag == flagZRemRangeByRank || r.flag == flagZPopMax || r.flag == flagZPopMin)
+
+def hasZPosAfterZAdd (recs : List (Rec × Nat × Nat)) : Bool :=
+  recs.any fun x => isZPositional x.1 &&
+    recs.any fun y => y.1.ds == dsZSet && y.1.flag == flagZAdd && y.1.bucket == x.1.bucket && y.2.1 < x.2.1
+
+/-- the defects that show at crash points inside Merge only -/
 def mergeCrashSignature (s : State) : Option String :=
-  if hasDupZAdd (allRecs s.files) then some "D-MERGE-ZSET-STALE" else none
+  if hasDupZAdd (allRecs s.files) then some "D-MERGE-ZSET-STALE"
+  else if hasZPosAfterZAdd (allRecs s.files) then some "D-MERGE-ZPOS" else none
 
 def step (sp : SpecSt) (model : State) (cmd : String) (impl : String) : SpecOut :=
   let f := words cmd
